@@ -80,7 +80,9 @@ def _cases(draw, tier):
             v['luq'] = v['n3'] * 3
         return {'kind': 'wellformed', 'v': v}
     big = (30, 12, 8) if tier == 'thorough' else (12, 8, 6)
-    return {'kind': 'wellformed', 'v': draw(genargs.legal_vectors(nmax=big, numinst_max=4))}
+    prior = draw(genargs.prior_runs())
+    return {'kind': 'wellformed', 'v': draw(genargs.legal_vectors(nmax=big, numinst_max=4)),
+            'prior': prior}
 
 
 def strategy(tier):
@@ -193,6 +195,7 @@ def check_file(text, v):
 
 def run_case(case):
     v = case['v']
+    genargs.run_prior(case.get('prior'))
     outdir = genargs.fresh_outdir()
     argv = genargs.build_argv(v, outdir)
     status, code, err = genargs.run_generator(argv, v['seed'])
